@@ -143,6 +143,11 @@ def run(chk: Check) -> None:
             on2 = reformat_text(on, ellipses=True, **o)
             if on2 != on:
                 why = "applying the option again changes the document"
+        if why and why != "applying the option again changes the document":
+            import c01
+            if not c01.structure_preserved(doc, o["width"], o["semantic"]):
+                chk.hist("skipped", "formatting without the option already changes the structure (C01 finding)")
+                continue
         if why:
             nbd += 1
             chk.fail("property", {"doc": doc, "opts": o, "off": off, "on": on, "on2": on2}, "ellipses on vs off: " + why, classify)
